@@ -420,4 +420,37 @@ theorem buildUnit_standalone (r : Resolver) (cmds : List Cmd) (hne : cmds ≠ []
   rw [hpos]
   rfl
 
+/-! ### the builder only looks at the resolver on its commands -/
+
+theorem cmdsLoop_congr (m : SlotMode) (r1 r2 : Resolver) (cmds : List Cmd) (st : LoopSt)
+    (h : ∀ c ∈ cmds, r1 c.name c.args = r2 c.name c.args) : cmdsLoop m r1 cmds st = cmdsLoop m r2 cmds st := by
+  induction cmds generalizing st with
+  | nil => rfl
+  | cons c cs ih =>
+    rw [cmdsLoop, cmdsLoop, h c (by simp)]
+    cases r2 c.name c.args with
+    | err => rfl
+    | notOk => rfl
+    | ok keys =>
+      simp only
+      split
+      · rfl
+      · cases keysLoop m 0 keys st with
+        | error e => rfl
+        | ok st' => exact ih st' (fun c' hc' => h c' (List.mem_cons_of_mem _ hc'))
+
+theorem buildUnit_congr (m : SlotMode) (r1 r2 : Resolver) (cmds : List Cmd)
+    (h : ∀ c ∈ cmds, r1 c.name c.args = r2 c.name c.args) : buildUnit m r1 cmds = buildUnit m r2 cmds := by
+  unfold buildUnit
+  rw [cmdsLoop_congr m r1 r2 cmds _ h]
+
+/-- two fall-backs that agree wherever the static tables do not resolve give the same resolver -/
+theorem resolverWith_congr (fb1 fb2 : Bytes → List Bytes → Fb) (c : Cmd)
+    (h : commandKeys c.name c.args = none → fb1 c.name c.args = fb2 c.name c.args) :
+    resolverWith fb1 c.name c.args = resolverWith fb2 c.name c.args := by
+  unfold resolverWith
+  cases hk : commandKeys c.name c.args with
+  | some ks => rfl
+  | none => simp only; rw [h hk]
+
 end GunYu.BisyncUnit
